@@ -169,6 +169,7 @@ def run(case, out):
                                                commitargs=ck_args)
                 elif front == "async":
                     w = writing.AsyncWriter(ix, delay=0.002)
+                    w.daemon = True   # a retry thread that can never get a leaked lock must not keep the process alive
             except LockError:
                 outcome = "lockerror"
                 attempts.append({"owner": owner, "held": held_at_start, "outcome": outcome,
@@ -298,8 +299,10 @@ def run(case, out):
             script = dict(case["B"])
             if j % 16 != 3:
                 script["timeout"] = 0   # waiting out a timeout costs real time: only every 16th rival does
-            if script["front"] == "async" and not any(j % 37 == int(f * 36) for f in async_marks):
-                script["front"] = "seg"   # AsyncWriter rivals (one retry thread each) only at the generated boundaries
+            if script["front"] == "async" and (len(pending_async) >= 3 or
+                                               not any(j % 37 == int(f * 36) for f in async_marks)):
+                # AsyncWriter rivals (one retry thread each) only at the generated boundaries, at most three per case
+                script["front"] = "seg"
             t0 = time.time()
             if (not ram) and j % case["fork_every"] == 2 and script["front"] in ("seg", "with"):
                 oc = forked_rival(owner, script)
@@ -332,13 +335,40 @@ def run(case, out):
                      {"error": "".join(traceback.format_exception(type(e), e, e.__traceback__))[-900:]})
             return
         # the retry threads of AsyncWriter rivals can now get the lock, one after the other
+        # The retry threads now compete for the lock.  Wait for them; meanwhile tell a busy lock (some thread holds it
+        # according to the monitor) from a leaked one (nobody holds it, yet it cannot be had), so that a leak is
+        # reported at once instead of being waited out.  Slowness alone is never a violation.
+        if pending_async:
+            pst, _ = storage_for("probe")
+            pix = pst.open_index()
+            nobody = 0
+            deadline = time.time() + 600
+            while any(aw.is_alive() for _, aw, _, _ in pending_async) and time.time() < deadline:
+                try:
+                    pw = pix.writer(timeout=0)
+                    pw.cancel()
+                    nobody = 0
+                except LockError:
+                    nobody = nobody + 1 if mon.holder is None else 0
+                if nobody >= 30:
+                    out.fail("c04.lock_still_held_after_all_writers_finished",
+                             {"holder": None, "async_rivals_waiting": [o for o, aw, _, _ in pending_async if aw.is_alive()]})
+                    for _, aw, _, _ in pending_async:
+                        aw.running = False
+                    stop_bystander()
+                    return
+                time.sleep(0.05)
+        inconclusive = False
         for owner, aw, adds, dels in pending_async:
-            aw.join(30)
             if aw.is_alive():
-                out.fail("c04.async_writer_never_got_the_lock", {"owner": owner})
+                inconclusive = True
+                out.exclude("async_rival_still_waiting_after_600s")
                 continue
             log.append((owner, adds, dels))
             out.label("async_rival_waited_for_lock")
+        if inconclusive:
+            stop_bystander()
+            return
         # after everything: the lock is free
         vst, _ = storage_for("verify")
         vix = vst.open_index()
